@@ -47,8 +47,15 @@ type VAdvResult struct {
 	Err      error
 }
 
-// ownSignHook records Sign calls made with V's share during the current run (one run per process at a time).
+// ownSignHook records Sign calls made during the current run (one run per process at a time).
 var ownSignHook func(idx int, msg []byte)
+
+// SignRec is one threshold-signature creation observed during a run.
+type SignRec struct {
+	ShareIdx int
+	Digest   []byte
+	At       time.Time // global virtual time
+}
 
 // Run executes one schedule.
 func (h *VAdv) Run(devs []vrt.Dev, labels bool) *VAdvResult {
@@ -62,7 +69,8 @@ func (h *VAdv) Run(devs []vrt.Dev, labels bool) *VAdvResult {
 	}
 	defer func() { ownSignHook = nil }()
 	until := time.Unix(k.Genesis, 0).Add(time.Duration(h.Rounds)*k.Period - time.Second)
-	res.S = vrt.Run(vrt.Options{Devs: devs, MaxSteps: 300000, Until: until, Labels: labels, EarlyTimers: h.EarlyTimers, Watchdog: 20 * time.Second}, func() {
+	res.S = vrt.Run(vrt.Options{Devs: devs, MaxSteps: 300000, Until: until, Labels: labels, Watchdog: 20 * time.Second}, func() {
+		defer vrt.SetEarlyTimers(h.EarlyTimers)
 		ctx := context.Background()
 		res.Seq = vrt.ChooseFree(len(h.Seqs), "packet sequence")
 		seq := h.Seqs[res.Seq]
@@ -193,4 +201,35 @@ func (k *Keys) Partial(j int, r uint64, prev []byte) *proto.PartialBeaconPacket 
 // PartialRaw builds a packet with explicit fields.
 func (k *Keys) PartialRaw(r uint64, prev, sig []byte) *proto.PartialBeaconPacket {
 	return &proto.PartialBeaconPacket{Round: r, PreviousSignature: prev, PartialSig: sig, Metadata: k.meta()}
+}
+
+// JudgeFuture adds the C04 oracles of the V+adversary harness: V refuses every partial for a round more than
+// one ahead of its clock, stores no beacon of a round before that round's time (the adversary controls fewer
+// than T members in these runs only if the harness says so), and releases no partial early.
+func (h *VAdv) JudgeFuture(r *VAdvResult, x *explore.Exec, prefix string, adversaryBelowThreshold bool) {
+	k := h.Keys
+	if r.Err != nil || r.Net == nil || r.S.NativeBlock != "" || r.S.ReplayDivergence != "" {
+		return
+	}
+	add := func(fp, f string, a ...any) {
+		x.Violations = append(x.Violations, explore.Violation{Fingerprint: prefix + "/" + fp, Detail: fmt.Sprintf("%s n=%d t=%d seq#%d [%s]: ", k.SchemeID, k.N, k.T, r.Seq, SeqLabel(h.Seqs[r.Seq])) + fmt.Sprintf(f, a...)})
+	}
+	for _, d := range r.Net.Ledger {
+		cur := common.CurrentRound(d.SenderNow.Unix(), k.Period, k.Genesis)
+		if d.Round > cur+1 && d.ReceiverOK {
+			add("future-partial-accepted", "V accepted a partial for round %d while its clock was in round %d", d.Round, cur)
+		}
+	}
+	for _, d := range r.Net.Sent {
+		if t := common.TimeOfRound(k.Period, k.Genesis, d.Round); d.From == r.V.Idx && d.SenderNow.Unix() < t {
+			add("early-partial", "V released its partial for round %d at local time %d, before that round's time %d", d.Round, d.SenderNow.Unix(), t)
+		}
+	}
+	if adversaryBelowThreshold {
+		for i, b := range r.Writes {
+			if t := common.TimeOfRound(k.Period, k.Genesis, b.Round); b.Round > 0 && r.WriteAt[i].Unix() < t {
+				add("early-beacon", "V stored round %d at local time %d, before that round's time %d", b.Round, r.WriteAt[i].Unix(), t)
+			}
+		}
+	}
 }
